@@ -214,27 +214,42 @@ def _wcall(a):
 _POOLS = {}
 
 
-def _get_pool(n, need_substrate, init):
+def _get_pool(n, need_substrate, init, env=None, tag=None):
     import multiprocessing as mp
-    k = (need_substrate, init, n)
+    k = (need_substrate, init, n, tag)
     if k not in _POOLS:
         mpctx = mp.get_context('spawn')
-        pool = mpctx.Pool(n, initializer=_winit,
-                          initargs=(need_substrate, init))
+        saved = {}
+        for ek, ev in (env or {}).items():
+            saved[ek] = os.environ.get(ek)
+            os.environ[ek] = ev
+        try:
+            # spawned children inherit os.environ as it is now (workers are
+            # started eagerly by Pool())
+            pool = mpctx.Pool(n, initializer=_winit,
+                              initargs=(need_substrate, init))
+        finally:
+            for ek, ev in saved.items():
+                if ev is None:
+                    os.environ.pop(ek, None)
+                else:
+                    os.environ[ek] = ev
         _POOLS[k] = pool
     return _POOLS[k]
 
 
 def pmap(ctx, modname, fnname, args, need_substrate=True, init=None,
-         chunksize=1, nproc=None):
+         chunksize=1, nproc=None, env=None, tag=None):
     """Ordered parallel map of a module-level function over args; worker
-    processes persist for the lifetime of the check."""
+    processes persist for the lifetime of the check.  `env` (with a `tag`
+    naming the pool) starts a separate group of workers with that
+    environment, e.g. another PYTHONHASHSEED."""
     args = list(args)
     n = min(ctx.nproc, nproc or ctx.nproc)
-    if n <= 1 or len(args) <= 1:
+    if (n <= 1 or len(args) <= 1) and not env:
         _winit(need_substrate, init)
         return [_wcall((modname, fnname, a)) for a in args]
-    pool = _get_pool(n, need_substrate, init)
+    pool = _get_pool(max(n, 1), need_substrate, init, env, tag)
     # map_async + timeout: a results thread that dies (e.g. unpicklable
     # result in this process) must surface as an error, not as a hang
     return pool.map_async(
